@@ -1,7 +1,7 @@
 """C02 — shares are conserved (structural clauses)."""
 from mir import Terms, parse_callee, show, op_place, op_const, place_proj, subterms, summary, is_decimal_arith_assign
 from flow import root_of_operand
-from roles import Roles, RULES, POOL, LOT, agg_fields, guards_of, truth, is_agg
+from roles import Roles, RULES, POOL, LOT, agg_fields, guards_of, truth, is_agg, sell_time_ratio, times_ratio
 import panics as P
 
 META = {
@@ -188,17 +188,20 @@ def pairing(R, rep):
                         claims.append((i, t, tb.operand(t["args"][1]), []))
                 okc = False
                 why = "no future claim is recorded for the matched acquisition"
+                st = sell_time_ratio(q)
                 for i, t, cterm, args in claims:
-                    # cterm must be q × ratio
-                    if isinstance(cterm, tuple) and cterm[0] == "*" and q in cterm[1]:
-                        rest = [x for x in cterm[1] if x != q]
-                        okc = len(rest) == 1 and isinstance(rest[0], tuple) and rest[0][0] == "var"
-                        why = "the claim on the future acquisition is Match.quantity × cumulative split ratio (buy-time units)" if okc else f"claim is {show(cterm)[:80]}"
+                    # cterm must be q × R with R the very ratio that divides the availability inside q
+                    if st is not None and times_ratio(cterm, q, st[2]):
+                        okc = True
+                        why = "the claim on the future acquisition is Match.quantity × cumulative split ratio (buy-time units)"
                     elif cterm == q:
                         why = "the future claim equals the sell-time quantity without split rescaling"
-                    else:
-                        why = f"claim {show(cterm)[:70]} is not derived from Match.quantity {show(q)[:50]}"
+                    elif not okc:
+                        why = f"claim {show(cterm)[:70]} is not Match.quantity × the cumulative ratio used for the sell-time quantity"
                     # keyed by the candidate's index
+                    if okc and not args:
+                        tgt = tb.operand(t["args"][0])
+                        args = [x[2][1] for x in subterms(tgt) if isinstance(x, tuple) and x and x[0] == "call" and parse_callee(x[1])[2] == "entry" and len(x[2]) == 2]
                     if okc and args:
                         idx_ok = any(show(a).endswith(".0") and "next(" in show(a) for a in args)
                         rep.ob("R3", "30-day:claim-keyed-by-candidate", idx_ok, "claim is booked on the candidate's own transaction index" if idx_ok else
@@ -230,9 +233,10 @@ def pairing(R, rep):
 
 def acquisition_guard(R, rep):
     d = R.require("dayloop")
-    tb = R.terms(d, 0)
-    adds = [(i, t) for i, t in d.calls() if t["callee"].endswith("AcquisitionLedger::add_acquisition")]
-    for i, t in adds:
+    rg = R.region(d)
+    adds = list(rg.calls(lambda c: c.endswith("AcquisitionLedger::add_acquisition")))
+    for it in adds:
+        b, i, t, tb = it["body"], it["bb"], it["term"], it["tb"]
         args = [tb.operand(a) for a in t["args"]]
         amount = args[3] if len(args) > 3 else None
         extras = args[-1]
@@ -243,7 +247,7 @@ def acquisition_guard(R, rep):
         if reserved is None and isinstance(extras, tuple) and extras[0] == "call" and len(extras[2]) == 2:
             reserved = extras[2][1]
         ok = False
-        for cond, val, s in guards_of(d, tb, i):
+        for cond, val, s in guards_of(b, tb, i):
             if isinstance(cond, tuple) and cond[0] == "cmp" and not truth(val):
                 if cond[1] == "Gt" and cond[2] == reserved and cond[3] == amount:
                     ok = True
@@ -257,9 +261,9 @@ def acquisition_guard(R, rep):
         rep.ob("R4", "add_acquisition:claimed≤amount", ok,
                "an acquisition enters the ledger only if earlier 30-day claims on it do not exceed its quantity" if ok else
                f"add_acquisition is not dominated by `claimed ({show(reserved)[:40]}) > amount ({show(amount)[:30]}) → Err`: more shares than were bought can be matched to it",
-               d.loc(t["sp"]), key="R4:add_acquisition:guard")
+               b.loc(t["sp"]), key="R4:add_acquisition:guard")
     if not adds:
-        rep.unresolved("R4", "add_acquisition", "day loop does not call add_acquisition")
+        rep.unresolved("R4", "add_acquisition", "the day loop (with its helpers) does not call add_acquisition")
 
 
 def cascade_exit(R, rep):
